@@ -17,8 +17,19 @@ class Mods:
     pass
 
 
+class _FakeUrlParse:
+    @staticmethod
+    def quote(s, *a, **k):
+        return '<quoted>'          # only used to format error messages
+
+
+class _FakeUrllib:
+    parse = _FakeUrlParse()
+
+
 def load_sym():
-    ld = env.Loader(sym=['oslo_utils.encodeutils'])
+    ld = env.Loader(env={'urllib': _FakeUrllib()},
+                    sym=['oslo_utils.encodeutils'])
     m = Mods()
     m.su = ld.load(SU)
     m.sha = ld.sha
@@ -338,3 +349,382 @@ def scen_maskdict_misc(ctx, M):
         ctx.check('C08-non-mapping-TypeError', r == 'TypeError')
     ctx.goal('misc')
     return (out['note'],)
+
+
+# ---------------------------------------------------------------- C14
+import z3 as _z3
+
+TRUE_WORDS = ('1', 't', 'true', 'on', 'y', 'yes')
+FALSE_WORDS = ('0', 'f', 'false', 'off', 'n', 'no')
+
+
+def _ct(ch):
+    return sstr.cterm(ch)
+
+
+def _ws(ch):
+    if isinstance(ch, int):
+        return ch in sstr.WS
+    return core.set_term(_ct(ch), sstr.WS)
+
+
+def _ci(ch, letter):
+    """char equals `letter` case-insensitively (as a condition)"""
+    want = {ord(letter), ord(letter.upper())}
+    if isinstance(ch, int):
+        return ch in want
+    return core.set_term(_ct(ch), frozenset(want))
+
+
+def word_padded(s, words, allow_pad=True):
+    """condition: s is one of `words` (case-insensitive), optionally
+    surrounded by whitespace.  No forks."""
+    if isinstance(s, str):
+        t = s.strip() if allow_pad else s
+        return t.lower() in words
+    c = s.c
+    n = len(c)
+    alts = []
+    for w in words:
+        m = len(w)
+        for a in range(0, n - m + 1):
+            if not allow_pad and (a != 0 or m != n):
+                continue
+            conj = [_ws(x) for x in c[:a]] + \
+                [_ci(c[a + j], w[j]) for j in range(m)] + \
+                [_ws(x) for x in c[a + m:]]
+            if any(x is False for x in conj):
+                continue
+            conj = [x for x in conj if x is not True]
+            alts.append(_z3.And(*conj) if conj else True)
+    if any(a is True for a in alts):
+        return True
+    if not alts:
+        return False
+    return core.wrapbool(_z3.Or(*alts))
+
+
+def scen_bool(ctx, M):
+    su = M.su
+    n = ctx.choice('n', list(range(0, ctx.p['n'] + 1)))
+    s = ctx.str('s', n, frozenset(ctx.p['domain']) if ctx.p.get('domain')
+                else sstr.ALPHA)
+    strict = ctx.truth(ctx.bool('strict'))
+    default = ctx.truth(ctx.bool('default'))
+    try:
+        r = su.bool_from_string(s, strict=strict, default=default)
+        out = r
+    except ValueError:
+        out = 'ValueError'
+    except Exception as e:
+        out = 'EXC:' + type(e).__name__
+    is_t = word_padded(s, TRUE_WORDS)
+    is_f = word_padded(s, FALSE_WORDS)
+    if out is True:
+        ctx.check('C14-bool-true', OR(is_t, AND(NOT(is_f), default,
+                                                   not strict)))
+        ctx.goal('true')
+    elif out is False:
+        ctx.check('C14-bool-false', OR(is_f, AND(NOT(is_t), not default,
+                                                    not strict)))
+        ctx.goal('false')
+    elif out == 'ValueError':
+        ctx.check('C14-bool-valueerror', AND(strict, NOT(is_t), NOT(is_f)))
+        ctx.goal('rejected')
+    else:
+        ctx.check('C14-bool-no-other-exception', False)
+    v = su.is_valid_boolstr(s)
+    ctx.check('C14-boolstr', h.veq(bool(v) if not ctx.sym else ctx.truth(v),
+                                   OR(word_padded(s, TRUE_WORDS, False),
+                                      word_padded(s, FALSE_WORDS, False))))
+    # int_from_bool_as_string agrees
+    r2 = su.int_from_bool_as_string(s)
+    ctx.check('C14-int-from-bool', h.veq(r2 == 1, is_t) if not isinstance(
+        r2, bool) else False)
+    return (out,)
+
+
+def scen_bool_nonstr(ctx, M):
+    su = M.su
+    i = ctx.int('i')
+    strict = ctx.truth(ctx.bool('strict'))
+    default = ctx.truth(ctx.bool('default'))
+    try:
+        out = su.bool_from_string(i, strict=strict, default=default)
+    except ValueError:
+        out = 'ValueError'
+    if out is True:
+        ctx.check('C14-bool-int', OR(i == 1, AND(i != 0, default)))
+    elif out is False:
+        ctx.check('C14-bool-int', OR(i == 0, AND(i != 1, not default)))
+    else:
+        ctx.check('C14-bool-int', AND(strict, i != 0, i != 1))
+    for b in (True, False):
+        ctx.check('C14-bool-passthrough',
+                  su.bool_from_string(b, strict=strict,
+                                      default=not b) is b)
+    ctx.check('C14-intlike-int', h.veq(su.is_int_like(i), True))
+    ctx.goal('done')
+    return (out,)
+
+
+INTCHARS = frozenset(b'0123456789+-_ \t\n.eaxA')
+
+
+def py_int_value(s):
+    """reference for int(str): (accepted condition, value) with CPython's
+    base-10 rules; no forks (conditions over the characters)"""
+    if isinstance(s, str):
+        try:
+            return True, int(s)
+        except ValueError:
+            return False, 0
+    c = s.c
+    n = len(c)
+    alts = []
+    # choose padding a..b, optional sign, digit/underscore pattern
+    for a in range(n + 1):
+        for b in range(a + 1, n + 1):
+            body = c[a:b]
+            pad = [_ws(x) for x in c[:a]] + [_ws(x) for x in c[b:]]
+            if any(x is False for x in pad):
+                continue
+            for sign in (0, 1):
+                digs = body[sign:]
+                if not digs:
+                    continue
+                sc = []
+                if sign:
+                    sc = [core.set_term(_ct(body[0]), frozenset(b'+-'))
+                          if not isinstance(body[0], int)
+                          else body[0] in b'+-']
+                # digits with single underscores between digits
+                for mask_ in _us_patterns(len(digs)):
+                    conj = list(pad) + list(sc)
+                    val = _z3.IntVal(0)
+                    for ch, isus in zip(digs, mask_):
+                        if isus:
+                            conj.append((ch == 95) if isinstance(ch, int)
+                                        else _ct(ch) == 95)
+                        else:
+                            conj.append((48 <= ch <= 57) if isinstance(
+                                ch, int) else core.set_term(
+                                    _ct(ch), sstr.DIGITS))
+                            val = val * 10 + (_ct(ch) - 48)
+                    if any(x is False for x in conj):
+                        continue
+                    conj = [x for x in conj if x is not True]
+                    cond = _z3.And(*conj) if conj else _z3.BoolVal(True)
+                    if sign:
+                        neg = (body[0] == 45) if isinstance(body[0], int) \
+                            else (_ct(body[0]) == 45)
+                        val = _z3.If(neg, -val, val) if not isinstance(
+                            neg, bool) else (-val if neg else val)
+                    alts.append((cond, val))
+    if not alts:
+        return False, 0
+    acc = core.wrapbool(_z3.Or(*[a for a, _ in alts]))
+    v = _z3.IntVal(0)
+    for cnd, val in reversed(alts):
+        v = _z3.If(cnd, val, v)
+    return acc, core.wrapint(v)
+
+
+def _us_patterns(m):
+    """underscore masks of length m: first and last are digits, no two
+    adjacent underscores"""
+    out = []
+
+    def rec(i, cur):
+        if i == m:
+            if not cur[-1]:
+                out.append(tuple(cur))
+            return
+        rec(i + 1, cur + [False])
+        if i > 0 and not cur[-1]:
+            rec(i + 1, cur + [True])
+    rec(1, [False])
+    return out
+
+
+def canonical_cond(s):
+    """condition: s is -?(0|[1-9][0-9]*) (and not '-0')"""
+    if isinstance(s, str):
+        import re
+        return bool(re.fullmatch(r'-?(0|[1-9][0-9]*)', s)) and s != '-0'
+    c = s.c
+    n = len(c)
+    alts = []
+    for neg in (0, 1):
+        d = c[neg:]
+        if not d:
+            continue
+        conj = []
+        if neg:
+            conj.append((c[0] == 45) if isinstance(c[0], int)
+                        else _ct(c[0]) == 45)
+        for ch in d:
+            conj.append((48 <= ch <= 57) if isinstance(ch, int)
+                        else core.set_term(_ct(ch), sstr.DIGITS))
+        if len(d) > 1 or neg:
+            # no leading zero (and "-0" is not canonical)
+            conj.append((d[0] != 48) if isinstance(d[0], int)
+                        else _ct(d[0]) != 48)
+        if any(x is False for x in conj):
+            continue
+        conj = [x for x in conj if x is not True]
+        alts.append(_z3.And(*conj) if conj else _z3.BoolVal(True))
+    if not alts:
+        return False
+    return core.wrapbool(_z3.Or(*alts))
+
+
+def scen_intlike(ctx, M):
+    su = M.su
+    n = ctx.choice('n', list(range(0, ctx.p['n'] + 1)))
+    s = ctx.str('s', n, INTCHARS)
+    r = su.is_int_like(s)
+    r = ctx.truth(r)
+    ctx.check('C14-intlike', h.veq(r, canonical_cond(s)))
+    ctx.goal('yes' if r else 'no')
+    return (r,)
+
+
+def scen_validate_int(ctx, M):
+    su = M.su
+    kind = ctx.p['kind']
+    if kind == 'int':
+        v = ctx.int('v')
+        acc, val = True, v
+    else:
+        n = ctx.choice('n', list(range(0, ctx.p['n'] + 1)))
+        v = ctx.str('s', n, INTCHARS)
+        acc, val = py_int_value(v)
+    lo = ctx.int('lo') if ctx.p.get('lo', True) else None
+    hi = ctx.int('hi') if ctx.p.get('hi', True) else None
+    try:
+        r = su.validate_integer(v, 'x', lo, hi)
+        out = 'ok'
+    except ValueError:
+        r, out = None, 'ValueError'
+    except Exception as e:
+        r, out = None, 'EXC:' + type(e).__name__
+    inr = AND(acc, True if lo is None else val >= lo,
+              True if hi is None else val <= hi)
+    if out == 'ok':
+        ctx.goal('accepted')
+        ctx.check('C14-validate-accepts-only-valid', inr)
+        ctx.check('C14-validate-returns-int', h.veq(r == val, True))
+    elif out == 'ValueError':
+        ctx.goal('rejected')
+        ctx.check('C14-validate-rejects-only-invalid', NOT(inr))
+    else:
+        ctx.check('C14-validate-no-other-exception', False)
+    return (out,)
+
+
+def scen_strlen(ctx, M):
+    su = M.su
+    n = ctx.choice('n', list(range(0, ctx.p['n'] + 1)))
+    s = ctx.str('s', n)
+    lo = ctx.int('lo', 0, 8)
+    has_max = ctx.truth(ctx.bool('has_max'))
+    hi = ctx.int('hi', 1, 8) if has_max else None
+    try:
+        su.check_string_length(s, 'nm', min_length=lo, max_length=hi)
+        out = 'ok'
+    except ValueError:
+        out = 'ValueError'
+    except TypeError:
+        out = 'TypeError'
+    okc = AND(n >= lo, True if hi is None else n <= hi)
+    ctx.check('C14-strlen', h.veq(out == 'ok', okc))
+    ctx.check('C14-strlen-valueerror', out in ('ok', 'ValueError'))
+    for bad in (5, None, b'ab', ['a']):
+        try:
+            su.check_string_length(bad, 'nm', min_length=0, max_length=hi)
+            t = 'ok'
+        except TypeError:
+            t = 'TypeError'
+        except Exception as e:
+            t = type(e).__name__
+        ctx.check('C14-strlen-type', t == 'TypeError')
+    ctx.goal(out)
+    return (out,)
+
+
+# ---------------------------------------------------------------- C19
+def ref_split(s, maxpieces):
+    """split on '/' into at most maxpieces pieces, scanning manually"""
+    pieces = []
+    cur = s[0:0]
+    for ch in s:
+        if len(pieces) < maxpieces - 1 and ch == '/':
+            pieces.append(cur)
+            cur = s[0:0]
+        else:
+            cur = cur + ch
+    pieces.append(cur)
+    return pieces
+
+
+def ref_split_path(path, minsegs, maxsegs, rwl):
+    """reference from the C19 statement -> list or 'ValueError'"""
+    if not maxsegs:
+        maxsegs = minsegs
+    if minsegs > maxsegs:
+        return 'ValueError'
+    if len(path) == 0 or not (path[0] == '/'):
+        return 'ValueError'
+    rest = path[1:]
+    if rwl:
+        pieces = ref_split(rest, maxsegs)
+    else:
+        pieces = ref_split(rest, maxsegs + 1)
+        if len(pieces) == maxsegs + 1:
+            # more than maxsegs segments: only a single trailing slash
+            if len(pieces[maxsegs]) != 0:
+                return 'ValueError'
+            pieces = pieces[:maxsegs]
+    if len(pieces) < minsegs:
+        return 'ValueError'
+    for i in range(minsegs):
+        if len(pieces[i]) == 0:
+            return 'ValueError'
+    return pieces + [None] * (maxsegs - len(pieces))
+
+
+def scen_split_path(ctx, M):
+    su = M.su
+    p = ctx.p
+    n = ctx.choice('n', list(range(0, p['n'] + 1)))
+    path = ctx.str('p', n, frozenset(b'/a .'))
+    mn = p['minsegs']
+    mx = p['maxsegs']
+    rwl = p['rwl']
+    if ctx.sym:
+        core.ENG.allow_tokens = True       # urllib.parse.quote in messages
+    try:
+        r = su.split_path(path, mn, mx, rwl)
+        out = list(r)
+    except ValueError:
+        out = 'ValueError'
+    except Exception as e:
+        out = 'EXC:' + type(e).__name__
+    want = ref_split_path(path, mn, mx, rwl)
+    if want == 'ValueError' or out == 'ValueError':
+        ctx.check('C19-valueerror-iff', out == want)
+        ctx.goal('rejected')
+    else:
+        ctx.goal('split')
+        ctx.check('C19-length', isinstance(out, list) and
+                  len(out) == len(want))
+        if isinstance(out, list) and len(out) == len(want):
+            for a, b in zip(out, want):
+                if a is None or b is None:
+                    ctx.check('C19-padding', a is None and b is None)
+                else:
+                    ctx.check('C19-segment', a == b)
+    return (out if isinstance(out, str) else
+            [x if x is None or isinstance(x, (str, SymStr)) else repr(x)
+             for x in out],)
